@@ -1,6 +1,7 @@
 """C02: sibling agreement of the four adaptive selectors (R02.3) and writer/reader addressing (R02.4)."""
 import re
 from framework import rule, load_table
+from guards import is_derived
 from r_guards import short_fn
 from sym import *  # noqa
 from ir import *  # noqa
@@ -545,3 +546,39 @@ def r02_11(ctx, rr):
             rr.ob(ok, key=key)
             if not ok:
                 rr.violate(key, "%s closes inventory_begin with `%s`; the entries are indices into the inventory, so the sentinel must be the number of inventory entries (`inventory.len()`): with more than one entry per word a valid index exceeds this value and select looks in the wrong superblock" % (b.key, show(F, a)[:80]), F.loc(n))
+
+
+@rule("R02.12", props=["C02", "C01"], floor=10, title="broadword comparisons: a subtraction whose minuend has the lane MSBs forced to one has the lane MSBs cleared in its subtrahend")
+def r02_12(ctx, rr):
+    """`((y | MSBS) - (x & !MSBS))` keeps every lane's borrow inside the lane. With the subtrahend unmasked a lane
+    whose top bit is set borrows from its neighbour and the parallel `x <= y` is wrong for counters >= 2^(k-1)."""
+    F = ctx.F()
+    bodies = [b for b in F.fns() if not is_derived(b) and b.file.startswith("src/rank_sel/") and b.name in ("complete_select", "select_unchecked", "select_zero_unchecked", "rank_unchecked")]
+    CE = None
+
+    def is_msbs(n):
+        if n.get("k") == "Path" and n.get("res") == "def" and "MSBS_STEP" in (n.get("name") or ""):
+            return n["name"]
+        return None
+    for b in bodies:
+        for n in walk(b.body):
+            if n.get("k") == "Binary" and n["op"] == "-":
+                l, r = n["l"], n["r"]
+                while l.get("k") == "Block" and "expr" in l and not l["stmts"]:
+                    l = l["expr"]
+                while r.get("k") == "Block" and "expr" in r and not r["stmts"]:
+                    r = r["expr"]
+                if l.get("k") == "Binary" and l["op"] == "|":
+                    m = is_msbs(l["l"]) or is_msbs(l["r"])
+                    if not m:
+                        continue
+                    rr.instances += 1
+                    ok = False
+                    if r.get("k") == "Binary" and r["op"] == "&":
+                        for side in (r["l"], r["r"]):
+                            if side.get("k") == "Unary" and side.get("op") == "!" and is_msbs(side["e"]) == m:
+                                ok = True
+                    key = "%s:lane-borrow-confined" % short_fn(b.key)
+                    rr.ob(ok, key=key + m)
+                    if not ok:
+                        rr.violate(key, "%s subtracts `%s` from a word whose lane MSBs are forced to one (`| %s`) without clearing the lane MSBs of the subtrahend (`& !%s`): a lane with its top bit set borrows from the next lane and the parallel comparison is wrong for counters >= half the lane range" % (b.key, show(F, r)[:80], m, m), F.loc(n))
